@@ -27,6 +27,7 @@ package dagaz
 //@   ensures m.currentSession == s && m.currentParticipant == p && m.state != nil && m.state.SpatialPartition != nil
 //@   ensures {C20,C03} "dagaz" in s.moduleStates && s.moduleStates["dagaz"].(*State) == m.state
 //@   ensures {C20,C03} old("dagaz" in s.moduleStates) ==> m.state == old(s.moduleStates["dagaz"].(*State)) && m.state.SpatialPartition == old(s.moduleStates["dagaz"].(*State).SpatialPartition)
+//@   ensures {C03} !old("dagaz" in s.moduleStates) ==> fresh(m.state)
 
 // ---------------------------------------------------------------------------------------------
 // The spatial partition as seen by the module handlers (the grid itself — floating-point geometry —
